@@ -16,6 +16,16 @@ for pid in props:
         na.append({"property_id": pid, "reason": d["not_applicable"]})
     else:
         checks.append(d)
+# known findings: one committed file, composed from per-property fragments
+kf = {"comment": "Genuine amoco defects recorded (status known) or repaired (status fixed). Read-only at run time. Composed from known_findings.d/*.json by tools/mkmanifest.py.", "findings": []}
+for f in sorted(glob.glob(os.path.join(here, "known_findings.d", "*.json"))):
+    kf["findings"].extend(json.load(open(f)).get("findings", []))
+json.dump(kf, open(os.path.join(here, "known_findings.json"), "w"), indent=1)
+head["hooks"]["source_commits"] = head["hooks"].get("source_commits", [])
+served = [c["property_id"] for c in checks]
+for e in head.get("engines", []):
+    if e.get("name") == "tlc":
+        e["serves_properties"] = served
 head["checks"] = checks
 head["not_applicable"] = na
 json.dump(head, open(os.path.join(here, "MANIFEST.json"), "w"), indent=1)
